@@ -6,7 +6,7 @@
      persist/sqlite/wallet.go      UnspentSiacoinElements, WalletEvents
      host/settings/update.go       ConfigManager.UpdateChainState
      index/update.go               syncDB: wallet, (contracts,) settings, SetLastIndex in one transaction
-   The model corresponds to the code WITH fixes/C16-*.patch applied (see Props_C16.v).
+   The model corresponds to /repo HEAD including the fix commits of fixes/C16-*.patch (see Props_C16.v).
    No proofs here. *)
 From HostdBase Require Import Base.
 Set Implicit Arguments.
